@@ -89,3 +89,13 @@ func Harness_C13_cell_through_transport() {
 	w := df.VerifBuildFlowProgram(0, first, -1, 0, storeForm, t, variant)
 	c13Check(w)
 }
+
+// two transports on the address of the shared cell (thorough tier)
+func Harness_C13_cell_through_transport_pairs_T() {
+	n := df.VerifNumTransports
+	t1 := verifPick("t1", 0, n-1)
+	t2 := verifPick("t2", 0, n-1)
+	first := verifPick("share-before-store", 0, 1) == 1
+	w := df.VerifBuildFlowProgram2(0, first, []int{t1, t2}, []int{1, 0})
+	c13Check(w)
+}
